@@ -30,6 +30,7 @@ import (
 //	  objinv <expr>
 //	lemma <name>: <expr>
 type Clause struct {
+	Tags  []string // properties the clause serves (default: all properties of the unit)
 	Label string
 	Src   string
 	Expr  CExpr
@@ -167,6 +168,12 @@ func ParseContractFile(path string) (*ContractFile, error) {
 	var fileProps []string
 	clause := func(s string, n int) (Clause, error) {
 		c := Clause{Src: s, Line: n, File: path}
+		if strings.HasPrefix(s, "[") {
+			if j := strings.Index(s, "]"); j > 0 && strings.HasPrefix(strings.TrimSpace(s[1:j]), "C") {
+				c.Tags = strings.Fields(strings.ReplaceAll(s[1:j], ",", " "))
+				s = strings.TrimSpace(s[j+1:])
+			}
+		}
 		if m := labelRe.FindStringSubmatch(s); m != nil && !strings.HasPrefix(m[2], ":") {
 			c.Label, s = m[1], m[2]
 		}
